@@ -17,6 +17,7 @@ import ChessVerif.Model.Board
 import ChessVerif.Model.MoveGen
 import ChessVerif.Model.Mate
 import ChessVerif.Model.Pv
+import ChessVerif.Gen.Funcs
 
 namespace ChessVerif
 namespace Search
@@ -84,7 +85,7 @@ def Info.blankTime (i : Info) : Info := { i with time := 0 }
     `picker.Picker`. -/
 structure Comp (σ π : Type) where
   keys : Keys
-  /-- `eval.Eval(b, &eval.Coefficients)` -/
+  /-- `eval.Eval(b, &eval.Coefficients)` (raw; the search clamps it, see `evaluate`) -/
   eval : Board → Score
   /-- `s.tt.LookUp(b.Hash())` with `Value(ply)` applied -/
   ttProbe : σ → Board → Int → Option TTHit
@@ -176,6 +177,12 @@ def top (h : List StackMove) (n : Nat) : Option StackMove := h[n]?
 /-- int16 negation `-x`. -/
 @[inline] def neg (x : Score) : Score := wrapS16 (-x)
 
+/-- `evaluate(b)` (search.go, repo commit 2ab22cc): the static evaluation the search uses is
+    `Clamp(eval.Eval(b, &eval.Coefficients), -Inf+MaxPlies+1, Inf-MaxPlies-1)`; `c.eval` is the raw
+    `eval.Eval`, `clampS16` the regenerated translation of `chess.Clamp`. -/
+def evaluate (c : Comp σ π) (b : Board) : Score :=
+  Gen.Funcs.clampS16 (c.eval b) (-Inf + maxPlies + 1) (Inf - maxPlies - 1)
+
 /-! ## small state updates (named so that proofs can unfold them one at a time) -/
 
 namespace St
@@ -215,17 +222,21 @@ structure QLoop where
   maxim : Score
 
 /-- quiescence loop body after the recursive call returned `v` in state `s` (board still after the
-    move): undo, beta cut with its table store (before the abort check), update, abort check. -/
+    move): undo, abort check (as in `alphaBeta` *before* any persistent update — repo commit 161d312;
+    before it the beta cut and its table store came first and stored `-Inv` for an aborted child),
+    beta cut with its table store, update. -/
 def qAfter (c : Comp σ π) (L : Limits) (beta : Score) (ply : Int) (m : Move) (r : Board.Reverse)
     (l : QLoop) (v : Score) (s : St σ) : Step QLoop × St σ :=
   let curr := neg v
   let s := s.setBoard (s.board.undoMove m r)
+  let as := abort L s
+  if as.1 then (.ret Inv, as.2) else
+  let s := as.2
   if curr ≥ beta then
     (.ret curr, s.setPs (c.ttStore s.ps s.board 0 ply m curr .lower))
   else
     let l' : QLoop := { alpha := max l.alpha curr, maxim := max l.maxim curr }
-    let as := abort L s
-    if as.1 then (.ret Inv, as.2) else (.cont l', as.2)
+    (.cont l', s)
 
 /-- the `for m, ix := getNextMove(...)` loop of `quiescence`. `child` is the recursive call. -/
 def qLoop (c : Comp σ π) (L : Limits) (child : Score → Score → Int → St σ → Score × St σ)
@@ -268,7 +279,7 @@ def qBody (c : Comp σ π) (L : Limits) (child : Score → Score → Int → St 
   let inCheck := b.inCheck b.stm
   if inCheck && b.isCheckmate then (wrapS16 (-Inf + ply), s) else
   if !inCheck && b.isStalemate then (0, s) else
-  let standPat := c.eval b
+  let standPat := evaluate c b
   if !inCheck && standPat ≥ beta then (standPat, s) else
   -- s.ms.Push(); defer s.ms.Pop()
   let l0 : QLoop := { alpha := max alpha standPat, maxim := standPat }
@@ -466,7 +477,7 @@ def abBody (c : Comp σ π) (L : Limits) (child : Child σ) (alpha beta : Score)
   | some v => (v, s)
   | none =>
     let inCheck := b.inCheck b.stm
-    let staticEval : Score := if inCheck then Inv else c.eval b
+    let staticEval : Score := if inCheck then Inv else evaluate c b
     let improving := if inCheck then false else improvingOf s.hstack staticEval
     abPrune c L child alpha beta d ply nt inCheck improving staticEval hashMove s
 
